@@ -538,6 +538,38 @@ func explore(P *Prog, fn *ssa.Function, init uint64, evs []Ev, record func(ssa.I
 				}
 			}
 		}
+		if x, ok := b.Instrs[len(b.Instrs)-1].(*ssa.If); ok && len(b.Succs) == 2 {
+			// a comparison of integer constants once φs are resolved (for i := 0; i < 2; …: the first test is 0 < 2)
+			cv, pos := normCond(x.Cond, true)
+			if bo, isCmp := cv.(*ssa.BinOp); isCmp {
+				if l, okL := constInt(pathResolve(bo.X)); okL {
+					if r, okR := constInt(pathResolve(bo.Y)); okR {
+						var truth, known bool
+						switch bo.Op {
+						case token.LSS:
+							truth, known = l < r, true
+						case token.LEQ:
+							truth, known = l <= r, true
+						case token.GTR:
+							truth, known = l > r, true
+						case token.GEQ:
+							truth, known = l >= r, true
+						case token.EQL:
+							truth, known = l == r, true
+						case token.NEQ:
+							truth, known = l != r, true
+						}
+						if known {
+							if truth == pos {
+								feasible[1] = false
+							} else {
+								feasible[0] = false
+							}
+						}
+					}
+				}
+			}
+		}
 		for si, succ := range b.Succs {
 			if len(b.Succs) == 2 && !feasible[si] {
 				continue
@@ -635,6 +667,26 @@ func condPhis(fn *ssa.Function) []*ssa.Phi {
 					switch v.Type().Underlying().(type) {
 					case *types.Interface, *types.Pointer:
 						add(v, 0)
+					}
+				}
+			}
+		}
+	}
+	// loop counters compared with a constant (for i := 0; i < 2; i++): the first test is decided
+	for _, b := range fn.Blocks {
+		if iff, ok := b.Instrs[len(b.Instrs)-1].(*ssa.If); ok {
+			c, _ := normCond(iff.Cond, true)
+			if bo, ok := c.(*ssa.BinOp); ok {
+				for _, pair := range [][2]ssa.Value{{bo.X, bo.Y}, {bo.Y, bo.X}} {
+					phi, isPhi := pair[0].(*ssa.Phi)
+					if _, isC := constInt(pair[1]); !isPhi || !isC {
+						continue
+					}
+					for _, e := range phi.Edges {
+						if _, ok := constInt(e); ok {
+							add(phi, 0)
+							break
+						}
 					}
 				}
 			}
